@@ -209,6 +209,11 @@ Definition hdrs_of (x : xkind) (code : N) : option req_hdrs :=
 
 Inductive drun := DRun (cuts : list fcut) (hdr : N) (h : hobs) (polled : N).
 Inductive lrun := LRun (status : N) (h : hobs) (healthy : bool).
+(* a run on a body too large to expand here (see CAbs): [cuts] = Some: direct
+   run on data frames of these sizes; None: live run.  In [h] the checksum
+   field is 1 if the harness found the delivered bytes equal to the initial
+   part (of that length) of the expected region, 0 otherwise. *)
+Inductive arun := ARun (cuts : option (list fcut)) (status : N) (h : hobs) (polled : N) (healthy : bool).
 
 Inductive c11case :=
   (* which cap is in force: the endpoint declared [ov]; lookup_route's
@@ -218,7 +223,14 @@ Inductive c11case :=
   (* the real extractor called on a synthetic body of exactly these frames *)
 | CDirect (x : xkind) (ov : option N) (def : N) (body : list seg) (runs : list drun)
   (* a live server; each run is one framing of the same body *)
-| CLive (x : xkind) (ov : option N) (def : N) (body : list seg) (runs : list lrun).
+| CLive (x : xkind) (ov : option N) (def : N) (body : list seg) (runs : list lrun)
+  (* large bodies (above 64 KiB+1, up to gibibytes), direct or live: the body
+     is described by its segments but never expanded; the model is run on
+     frame lengths only (BodyCap.stream_len, exact by
+     C11_stream_depends_on_lengths); byte equality of what was delivered with
+     the body is checked by the harness and reported as the 1/0 "checksum".
+     The specification evaluated is the same [spec]. *)
+| CAbs (x : xkind) (ov : option N) (def : N) (body : list seg) (runs : list arun).
 
 Definition ct_of (x : xkind) : bct :=
   match x with
@@ -275,7 +287,11 @@ Definition mk_binfo (x : xkind) (body : str) : binfo :=
 
 (* checksum of the first l bytes of the region *)
 Definition pcks (bi : binfo) (l : N) : N :=
-  if l =? bi_rlen bi then bi_rcks bi else cks (firstn (N.to_nat l) (bi_region bi)).
+  if l =? bi_rlen bi then bi_rcks bi else
+  match bi_region bi with
+  | [] => cks []     (* (= cks (firstn _ []); written so that [l] is not turned into a nat) *)
+  | _ :: _ => cks (firstn (N.to_nat l) (bi_region bi))
+  end.
 
 (* checksum of [s], reusing the case's when [s] is the region *)
 Definition cks_m (bi : binfo) (s : str) : N :=
@@ -478,6 +494,105 @@ Definition judge_live (x : xkind) (ov : option N) (def : N) (bi : binfo) (r : lr
       else V_DIVERGE
   end.
 
+(* ------------------------------------------------------------------ *)
+(* large bodies, not expanded *)
+
+Definition seg_len (s : seg) : N :=
+  match s with SLit bs => blen bs | SRep _ n => n | SPat _ _ n => n end.
+Definition segs_len (segs : list seg) : N := sum (map seg_len segs).
+
+(* the shapes [body_for] of the harness produces for a valid body, recognised
+   structurally; the result is the length of the pattern segment = the
+   payload the deserialiser / multer extracts ([pat] emits [0-9a-z] only) *)
+Definition abs_rlen (x : xkind) (segs : list seg) : option N :=
+  match x, segs with
+  | XUntyped, [SPat _ _ n] | XStreaming, [SPat _ _ n] => Some n
+  | XJson, [SLit q1; SPat _ _ n; SLit q2; SRep b _] =>
+      if str_eqb q1 [34] && str_eqb q2 [34] && (b =? 32) then Some n else None
+  | XForm, [SLit p; SPat _ _ n] => if str_eqb p [115; 61] then Some n else None
+  | XMultipart, [SLit p; SPat _ _ n; SLit q] =>
+      if str_eqb p mp_prefix && str_eqb q mp_suffix then Some n else None
+  | _, _ => None
+  end.
+
+Definition lf_of_cut (k : fcut) : lframe :=
+  match k with KData n => LData n | KTrailers => LTrailers | KErr => LErr end.
+Definition ltotal (ls : list lframe) : N :=
+  sum (map (fun f => match f with LData n => n | _ => 0 end) ls).
+Definition lnoerr (ls : list lframe) : bool :=
+  forallb (fun f => match f with LErr => false | _ => true end) ls.
+
+(* as [witness_frames], on lengths *)
+Definition witness_len (cap len : N) (h : hobs) : list lframe :=
+  match h with
+  | HStream z _ _ =>
+      let rest := len - sum z in
+      map LData z ++ (if rest =? 0 then [] else [LData rest])
+  | _ =>
+      if len <=? cap then (if len =? 0 then [] else [LData len])
+      else [LData cap; LData (len - cap)]
+  end.
+
+(* what the extractors deliver, given the capped stream's result on lengths
+   (C11_all_extractors_capped: they see nothing else; C11_delivered_intact:
+   on Done the bytes are the whole body, which decodes to the payload) *)
+Definition abs_matches (x : xkind) (rlen : N) (res : list N * outcome) (h : hobs) : bool :=
+  let '(ys, o) := res in
+  match x with
+  | XJson | XForm | XUntyped =>
+      match o with
+      | Done => hobs_eqb h (HBuf rlen 1)
+      | Refused400 | NetErr400 => hobs_eqb h (HRefused 400)
+      end
+  | XStreaming => hobs_eqb h (HStream ys 1 (outcome_status o))
+  | XMultipart =>
+      match o with
+      | Done => hobs_eqb h (HMulti rlen 1 false)
+      | Refused400 | NetErr400 =>
+          match h with
+          | HMulti l c true => (l <=? N.min rlen (sum ys - blen mp_prefix)) && (c =? 1)
+          | _ => false
+          end
+      end
+  end.
+
+Definition abs_status (res : list N * outcome) : N :=
+  match outcome_status (snd res) with Some st => st | None => 200 end.
+
+Definition judge_abs (x : xkind) (ov : option N) (def : N) (bi : binfo) (r : arun) : N :=
+  let '(ARun cuts st h pol healthy) := r in
+  let cap := effective_cap ov def in
+  if negb (match h with HStream z _ _ => sum z <=? bi_len bi | _ => true end)
+  then V_VIOLATION (* more bytes than were sent *) else
+  let ls := match cuts with
+            | Some cs => map lf_of_cut cs
+            | None => witness_len cap (bi_len bi) h
+            end in
+  if negb (ltotal ls =? bi_len bi) then V_MALFORMED else
+  let st' := match cuts with Some _ => direct_status h | None => st end in
+  let spec_ok := if lnoerr ls then spec x cap bi st' h else spec_never_more x cap bi h in
+  let res := stream_len cap ls in
+  let model_ok :=
+    abs_matches x (bi_rlen bi) res h &&
+    match cuts with
+    | Some _ =>
+        match x with
+        | XMultipart => pol <=? frames_polled_len cap ls
+        | _ => pol =? frames_polled_len cap ls
+        end
+    | None => (st =? abs_status res) && healthy
+    end in
+  if negb spec_ok then V_VIOLATION else if model_ok then V_AGREE else V_DIVERGE.
+
+(* the body facts of an unexpanded body: no bytes, lengths only; [pcks] of
+   such a [binfo] is 1 for every length, the value the harness reports when
+   the delivered bytes are right *)
+Definition abs_binfo (x : xkind) (segs : list seg) : option binfo :=
+  match abs_rlen x segs with
+  | Some rlen => Some (BI [] (segs_len segs) [] rlen (cks []) true)
+  | None => None
+  end.
+
 Definition judge (c : c11case) : N :=
   match c with
   | CSelect ov def meta cap =>
@@ -493,6 +608,11 @@ Definition judge (c : c11case) : N :=
   | CLive x ov def segs runs =>
       let bi := mk_binfo x (expand segs) in
       fold_left (fun acc r => worst acc (judge_live x ov def bi r)) runs V_AGREE
+  | CAbs x ov def segs runs =>
+      match abs_binfo x segs with
+      | None => V_MALFORMED
+      | Some bi => fold_left (fun acc r => worst acc (judge_abs x ov def bi r)) runs V_AGREE
+      end
   end.
 
 (* per-run verdicts, for locating the failing run of a case by hand *)
@@ -503,4 +623,9 @@ Definition judge_runs (c : c11case) : list N :=
       let bi := mk_binfo x (expand segs) in map (judge_direct x ov def bi) runs
   | CLive x ov def segs runs =>
       let bi := mk_binfo x (expand segs) in map (judge_live x ov def bi) runs
+  | CAbs x ov def segs runs =>
+      match abs_binfo x segs with
+      | None => [V_MALFORMED]
+      | Some bi => map (judge_abs x ov def bi) runs
+      end
   end.
